@@ -148,17 +148,78 @@ func encodeCase(why string, f fileid.FileID, canon bool, emit bool) string {
 	}
 	c.Nontrivial("e" + s)
 	c.Sample(map[string]interface{}{"id": describe(f), "encoded": s})
+	if !canon {
+		// ids carrying more than the format stores come back as their canonical projection
+		if want, ok := canonical(f); ok {
+			status, g := runDecode(s)
+			if status != 0 || !equalID(want, g) {
+				c.Violate("canonical-projection-mismatch", fmt.Sprintf("Decode(Encode(id)) != canonical(id): status=%d id=%s got=%s want=%s", status, describe(f), describe(g), describe(want)), sh, ix, js)
+			}
+		}
+	}
 	if canon {
 		status, g := runDecode(s)
 		if status != 0 || !equalID(f, g) {
 			sig := "roundtrip-mismatch"
-			if zr := maxZeroRun(f.FileReference); zr >= 240 {
+			h := f
+			h.DC = g.DC
+			if f.DC < 0 && status == 0 && equalID(h, g) {
+				sig = "negative-dc-unsigned-readback"
+			} else if zr := maxZeroRun(f.FileReference); zr >= 240 {
 				sig = "rle-zero-run-wrap"
 			}
 			c.Violate(sig, fmt.Sprintf("Decode(Encode(id)) != id: status=%d id=%s got=%s", status, describe(f), describe(g)), sh, ix, js)
 		}
 	}
 	return s
+}
+
+// canonical is the part of a FileID the format carries (independent restatement of the
+// layout): 32-bit DC and LocalID, no PhotoSize, photo size source only for photo-like
+// types and only the fields of its kind, nothing but reference and URL for web locations.
+// ok=false when the id cannot be decoded at all (unknown type / source kind).
+func canonical(f fileid.FileID) (fileid.FileID, bool) {
+	if f.Type < 0 || f.Type >= 18 {
+		return f, false
+	}
+	g := fileid.FileID{Type: f.Type, DC: int(int32(f.DC)), FileReference: f.FileReference, URL: f.URL}
+	if f.URL != "" {
+		return g, true
+	}
+	g.ID, g.AccessHash = f.ID, f.AccessHash
+	switch f.Type {
+	case fileid.Thumbnail, fileid.Photo, fileid.ProfilePhoto:
+	default:
+		return g, true
+	}
+	p := f.PhotoSizeSource
+	q := fileid.PhotoSizeSource{Type: p.Type}
+	loc := func() { q.VolumeID, q.LocalID = p.VolumeID, int(int32(p.LocalID)) }
+	switch p.Type {
+	case fileid.PhotoSizeSourceLegacy:
+		q.Secret = p.Secret
+	case fileid.PhotoSizeSourceThumbnail:
+		q.FileType, q.ThumbnailType = fileid.Type(uint32(p.FileType)), p.ThumbnailType
+	case fileid.PhotoSizeSourceDialogPhotoBig, fileid.PhotoSizeSourceDialogPhotoSmall:
+		q.DialogID, q.DialogAccessHash = p.DialogID, p.DialogAccessHash
+	case fileid.PhotoSizeSourceStickerSetThumbnail:
+		q.StickerSetID, q.StickerSetAccessHash = p.StickerSetID, p.StickerSetAccessHash
+	case fileid.PhotoSizeSourceFullLegacy:
+		q.Secret = p.Secret
+		loc()
+	case fileid.PhotoSizeSourceDialogPhotoBigLegacy, fileid.PhotoSizeSourceDialogPhotoSmallLegacy:
+		q.DialogID, q.DialogAccessHash = p.DialogID, p.DialogAccessHash
+		loc()
+	case fileid.PhotoSizeSourceStickerSetThumbnailLegacy:
+		q.StickerSetID, q.StickerSetAccessHash = p.StickerSetID, p.StickerSetAccessHash
+		loc()
+	case fileid.PhotoSizeSourceStickerSetThumbnailVersion:
+		q.StickerSetID, q.StickerSetAccessHash, q.StickerVersion = p.StickerSetID, p.StickerSetAccessHash, p.StickerVersion
+	default:
+		return f, false
+	}
+	g.PhotoSizeSource = q
+	return g, true
 }
 
 func maxZeroRun(b []byte) int {
@@ -299,7 +360,7 @@ func randCanonical(r *hx.Rand, typ, kind int) fileid.FileID {
 	f := fileid.FileID{Type: fileid.Type(typ)}
 	switch r.Intn(8) {
 	case 0:
-		f.DC = []int{0, 1 << 31, 1<<32 - 1, 1<<31 - 1, 255, 256}[r.Intn(6)]
+		f.DC = []int{0, -1, -5, -1 << 31, 1<<31 - 1, 255, 256, -2}[r.Intn(8)] // dc_id is a signed 32-bit field
 	default:
 		f.DC = r.Range(1, 5)
 	}
@@ -433,11 +494,12 @@ func main() {
 		f := randCanonical(r, r.Intn(18), r.Intn(10))
 		switch r.Intn(4) {
 		case 0:
-			f.DC = -r.Range(1, 5)
-			c.Count("observation:negative-dc-decodes-as-unsigned-32-bit")
+			f.DC = []int{1 << 31, 1<<32 - 1, 1 << 40, -1<<31 - 1, 1<<32 + 3}[r.Intn(5)] // does not fit the 32-bit field
 		case 1:
 			f.PhotoSizeSource = randPSS(r, r.Intn(10))
 			f.PhotoSizeSource.Secret, f.PhotoSizeSource.VolumeID = randI64(r), randI64(r)
+			f.PhotoSizeSource.PhotoSize = "x"
+			f.PhotoSizeSource.LocalID = int(r.U64() >> 20)
 		case 2:
 			f.PhotoSizeSource.Type = fileid.PhotoSizeSourceType(r.Range(10, 12))
 		case 3:
@@ -447,7 +509,7 @@ func main() {
 			decodeCase("noncanonical", s, i%2 == 0)
 		}
 	}
-	c.Note("DC is a 32-bit field read unsigned by decodeLatestFileID: the round-trip domain is 0 <= DC < 2^32 (negative DCs come back as DC+2^32; Telegram DC ids are small positive numbers); FileReference nil and empty are identified")
+	c.Note("the format carries 32-bit DC / LocalID, no PhotoSize, a photo size source only for photo-like types: ids with more than that are checked against their canonical projection (Go-side restatement of the layout); FileReference nil and empty are identified")
 
 	// RLE directly
 	for i := 0; i < c.N(400, 5000); i++ {
